@@ -155,7 +155,7 @@ def correspondence(ctx):
     ctx.rule = ("history family: sequences of 2-30 operations over 1-3 recipes (character recipes and wordlist recipes): calls of Generate, Entropy, "
                 "Alphabet, SuccessProbability interleaved with caller-side updates of every public field, in-place overwrites of RequireSets elements the "
                 "library has already seen, repeated calls with the same tape; every call with its own scripted tape; a snapshot of all public fields and "
-                "input slices before/after every call. Non-trivial = distinct history containing a field update followed by a call on the same recipe.")
+                "input slices before/after every call; every other character recipe starts life in NewCharRecipe; RequireSets are passed as a prefix of a longer caller-owned table (two guarded elements beyond len); separator calls that fail. Non-trivial = distinct history containing a field update followed by a call on the same recipe.")
     rng = ctx.rng
     n = 250 if ctx.tier == "quick" else 3000
     lines, metas = [], []
@@ -221,7 +221,7 @@ def correspondence(ctx):
 
 
 def oracle(ctx, deep):
-    ctx.searched = "snapshots of all public fields / lists / input slices around every call, and replay invariance (same call, same tape, same fields => same result) inside every history"
+    ctx.searched = "snapshots of all public fields / lists / input slices around every call, and replay invariance (same call, same tape, same fields => same result) inside every history; fresh-process independence: a late call of a history run again alone in a new process (field updates kept, earlier library calls dropped) must give the same result"
     for m, a in getattr(ctx, "hist_results", []):
         if a is None:
             continue
